@@ -98,14 +98,16 @@ theorem ridgeSegments_shift (v : P2 F) (nat : P3 F) (check other : P2 F) (ridge 
     unfold ridgeSegments
     simp only [List.length_map, idx_map, Except.map_bind_eq, ridgeSegment_shift, ih]
 
-theorem relevantRidge_shift (v : P2 F) (ridges : List (List (P2 F))) (check : P2 F) (fuel i : Nat) :
-    @relevantRidge F (fieldScalar T) (ridges.map (List.map (P2.shift v))) (P2.shift v check) fuel i =
-      @relevantRidge F (fieldScalar T) ridges check fuel i := by
+theorem relevantRidge_shift (v : P2 F) (ridges : List (List (P2 F))) (check other : P2 F) (fuel i : Nat) :
+    @relevantRidge F (fieldScalar T) (ridges.map (List.map (P2.shift v))) (P2.shift v check) (P2.shift v other) fuel i =
+      @relevantRidge F (fieldScalar T) ridges check other fuel i := by
   induction fuel generalizing i with
   | zero => rfl
   | succ m ih =>
+    have hite : ∀ (c : Prop) [Decidable c] (a b : P2 F), (if c then P2.shift v a else P2.shift v b) = P2.shift v (if c then a else b) := by
+      intro c _ a b; split <;> rfl
     unfold relevantRidge
-    simp only [List.length_map, idx_map, Except.map_bind_eq, P2.shift_x, P2.shift_y, sub_shift_cancel, ih]
+    simp only [List.length_map, idx_map, Except.map_bind_eq, P2.shift_x, P2.shift_y, sub_shift_cancel, hite, ih]
 
 /-- **the ridge kernel (Cartesian) is translation invariant**: all ridge coordinates and the surface part of the query's natural
 coordinates moved by the same vector -/
